@@ -125,3 +125,67 @@ func (w *WalletManager) VerifExistsUnminedTx(hash *wire.Hash) (*wire.MsgTx, erro
 func VerifConstructStakingTxOut(outputs []*StakingTxOut, mtx *wire.MsgTx) error {
 	return constructStakingTxOut(outputs, mtx)
 }
+
+// VerifRunImportStep runs one asyncImport batch synchronously while a stub goroutine
+// plays handle()'s part of the suspend/resume hand-shake (handle() must not be running).
+func (w *WalletManager) VerifRunImportStep(walletId string) (bool, error) {
+	h := w.ntfnsHandler
+	stop := make(chan struct{})
+	done := make(chan struct{})
+	go func() {
+		defer close(done)
+		select {
+		case <-h.sigSuspend:
+			<-h.sigResume
+		case <-stop:
+		}
+	}()
+	fin, err := h.asyncImport(walletId)
+	close(stop)
+	<-done
+	return fin, err
+}
+
+// VerifRunRemove runs asyncRemove synchronously (all phases) with the same stub.
+func (w *WalletManager) VerifRunRemove(walletId string) error {
+	h := w.ntfnsHandler
+	stop := make(chan struct{})
+	done := make(chan struct{})
+	go func() {
+		defer close(done)
+		for {
+			select {
+			case <-h.sigSuspend:
+				<-h.sigResume
+			case <-stop:
+				return
+			}
+		}
+	}()
+	err := h.asyncRemove(walletId)
+	close(stop)
+	<-done
+	return err
+}
+
+// VerifDrainTasks empties the task queue (tasks pushed by API calls) and returns them
+// as (type, walletId) pairs; type 0 = import, 1 = remove.
+func (w *WalletManager) VerifDrainTasks() [][2]string {
+	var out [][2]string
+	h := w.ntfnsHandler
+	if h.taskChan == nil {
+		return nil
+	}
+	for {
+		select {
+		case t := <-h.taskChan.C:
+			typ := "import"
+			if t.taskType == WalletTaskRemove {
+				typ = "remove"
+			}
+			out = append(out, [2]string{typ, t.walletId})
+		default:
+			return out
+		}
+	}
+}
